@@ -209,7 +209,7 @@ def gen_program(rng, crate, index, size):
                 return n
         raise RuntimeError("idents exhausted")
 
-    def add_bench(modpath, indent, nested_ok=True, force_kind=None, force_form=None, force_ident=None, force_empty=False):
+    def add_bench(modpath, indent, nested_ok=True, force_kind=None, force_form=None, force_ident=None, force_empty=False, force_nested=False):
         bid = next_id[0]
         next_id[0] += 1
         ident = force_ident or pick_ident(tuple(modpath))
@@ -342,7 +342,7 @@ def gen_program(rng, crate, index, size):
         if b.opts is None and any(p for p in opts_parts if not p.startswith(("name", "args", "types", "consts"))):
             b.opts = {}
         attr = "#[divan::bench(%s)]" % ", ".join(opts_parts) if opts_parts else "#[divan::bench]"
-        nested = nested_ok and rng.random() < 0.12 and kind in ("plain", "bencher")
+        nested = force_nested or (nested_ok and rng.random() < 0.12 and kind in ("plain", "bencher"))
         if nested:
             body.append("%sfn host_%d() {" % (pad, bid))
             pad2 = pad + "    "
@@ -453,6 +453,15 @@ def gen_program(rng, crate, index, size):
         add_module(sub, 1, 3, force_ident="parse", min_items=2)
         add_module(sub, 1, 3, force_ident="scan", min_items=2)
         add_bench(sub, 1, nested_ok=False, force_kind=rng.choice(["plain", "bencher"]), force_ident="scan")
+        body.append("}")
+        # benchmarks of one name nested in different function bodies of one module: module_path!() is the module's, so they share path
+        # and name, and are two registered items all the same
+        body.append("mod nested_twins {")
+        body.append("    use std::time::Duration;")
+        sub = [crate, "nested_twins"]
+        add_bench(sub, 1, force_kind="plain", force_ident="probe", force_nested=True)
+        add_bench(sub, 1, force_kind=rng.choice(["plain", "bencher"]), force_ident="probe", force_nested=True)
+        add_bench(sub, 1, nested_ok=False, force_kind="plain", force_ident="other")
         body.append("}")
     P.source = PRELUDE + "\n".join(body) + "\n"
     for i, it in enumerate(P.spec.items):
